@@ -423,11 +423,11 @@ _EXTRA2 = {
     "C12": " Round 7: C12structure - every structural deviation (element count +1, -1, huge, zero; value cut short; question without terminator; empty record) in every message slot, the first message with and without a question; group elements that are multiples of p (0, p, 2p, 3p) with the matching degenerate proof are judged under version 2 as well (the open finding covers out-of-range elements that are not multiples of p only).",
     "C01": " Round 6: randomness faults are ordinary ops of the attack scripts; the attacker's own exchanges against a v3 victim that knows its peer instance carry that instance's tag (otherwise they are ignored unseen); at the end the attacker tries to read one text of each side with the keys of its own exchanges: a side that reports an honest peer must not be readable for the attacker, a side that reports the attacker's key and session must be.",
     "C02": " Round 6: C02resent - for every text length 12..911 (thorough ..4211), both versions: the text is sent, the peer's client reports it unreadable, the parties re-key, and what comes back marked '[resent] ' must be exactly the text passed to Send.",
-    "C03": " Round 6: the peer's disconnect record may carry a value of 1-3 bytes, be preceded by a padding record and travel together with last words.",
+    "C03": " Round 7: the policy product is also run with a party that has no long-term key yet (no exchange with it can complete; what it owes the user's text is unchanged). Round 6: the peer's disconnect record may carry a value of 1-3 bytes, be preceded by a padding record and travel together with last words.",
     "C04": " Round 6: C04long - texts of 33-100 KB in both directions, whole and in pieces of 150..65535 bytes.",
     "C05": " Round 7: the first delivery may meet a failing randomness source (the text may come out once in all, over the first delivery and every repetition); the reference's counter may jump by 3*2^61 twice before the first message is presented again. Round 6: C05refreplay - data messages built by the reference in forms otr3's own Send never produces (text flagged ignore-unreadable, text plus extra-key record, flagged text plus padding, records only), accepted once and delivered again after 0, 1, 2 and 4 rounds of traffic: no text, no record acted on again.",
     "C06": " Round 6: C06fresh - two conversations that have never talked: at every point of their first exchange either side receives a refused or ignored key-exchange message (wrong or foreign instance tags, from another instance to another instance of ours, cut short, damaged, other version, retyped, length prefix altered), compared with the twin world byte for byte.",
-    "C07": " Round 7: the version pairs with unequal policies (23/3, 2/23, 3/23, 23/2) run the plain start patterns in the quick tier too. Round 6: the other side starts too, at any later point of the schedule (its own trigger once, all four triggers); trigger 5: a tagged text written by another implementation (8 forms: version-1 and later-version groups before, between or after the known ones) reaches a party that starts on tags - it must send a D-H Commit and the exchange must complete in every schedule.",
+    "C07": " Round 7: every handshake message in pieces (fragment sizes 70 and 300) between clients that have persisted their instance tags, single starters; a refresh must end in a new session id on both sides (the old session staying in place used to pass). the version pairs with unequal policies (23/3, 2/23, 3/23, 23/2) run the plain start patterns in the quick tier too. Round 6: the other side starts too, at any later point of the schedule (its own trigger once, all four triggers); trigger 5: a tagged text written by another implementation (8 forms: version-1 and later-version groups before, between or after the known ones) reaches a party that starts on tags - it must send a D-H Commit and the exchange must complete in every schedule.",
     "C08": " Round 6: C08peerend - otr3 against the reference, which ends the session in 128 ways (disconnect record with a 0-3 byte value, padding record first, last words in the same message, six kinds of trailing bytes, both versions): afterwards no D-H exponent otr3 drew is reachable from the conversation or left unzeroed.",
     "C10": " Round 7: texts of 49-100 KB in the fragment sweep (reassembled and read by the reference); a key exchange inside the session in which every Reveal Signature / Signature of the reference arrives behind a copy of itself with a damaged MAC. Round 6: the reference may number its first D-H key 2, 3, 100 or 70000 (any number > 0 is legal), may start every record block with a padding record, and may end the session with last words in the same message, a disconnect record carrying a value, padding first - with otr3's heartbeat due or not.",
     "C11": " Round 6: the secret buffers handed to StartAuthenticate / ProvideAuthenticationSecret are the caller's again when the call returns: the harness overwrites them immediately.",
